@@ -6,6 +6,7 @@ import (
 	"os"
 	"os/exec"
 	"path/filepath"
+	"regexp"
 	"sort"
 	"strconv"
 	"strings"
@@ -212,7 +213,7 @@ func (c *component) child(t *testing.T) {
 			return
 		}
 		var r Round
-		if fixed != nil {
+		if fixed != nil && fixed.Closers > 0 {
 			r = *fixed
 			rapid.Bool().Draw(rt, "tick")
 		} else {
@@ -288,6 +289,74 @@ func (c *component) feed(t *testing.T, s *sideRec) (violated bool) {
 		v := v
 		violated = true
 		t.Run("violation", func(t *testing.T) { vkit.Violation(t, v.Key, v.Detail, v.Round) })
+	}
+	return violated
+}
+
+var closeFrame = regexp.MustCompile(`tunnox-core/internal/[^\s]*\.(Close|CloseWithResult|CloseWithError|CloseConnection|CloseAll|CloseTunnel|onClose|cleanup|runCleanHandlers|StopCleanup|Dispose|DisposeAll)(-fm)?\(\)`)
+
+// feedRaces turns race-detector reports of a child into verdicts. Only races in which one of
+// the two accesses happens on a shutdown path (a Close / cleanup frame of the code under test
+// is on its stack) belong to this property; other races (e.g. two request handlers) are
+// counted and left to the properties that own them.
+func (c *component) feedRaces(t *testing.T, out string) (violated bool) {
+	blocks := strings.Split(out, "WARNING: DATA RACE")
+	if len(blocks) < 2 {
+		return false
+	}
+	seen := map[string]bool{}
+	for _, b := range blocks[1:] {
+		if i := strings.Index(b, "=================="); i >= 0 {
+			b = b[:i]
+		}
+		stacks := strings.Split(strings.TrimSpace(b), "\n\n")
+		if len(stacks) < 2 {
+			continue
+		}
+		var tops []string
+		onClosePath, harnessOnly := false, true
+		for _, st := range stacks[:2] {
+			top := ""
+			for _, ln := range strings.Split(st, "\n") {
+				ln = strings.TrimSpace(ln)
+				if strings.HasPrefix(ln, "tunnox-core/internal/") {
+					if top == "" {
+						top = shortFunc(strings.TrimSuffix(ln, "()"))
+					}
+					harnessOnly = false
+				}
+			}
+			if closeFrame.MatchString(st) {
+				onClosePath = true
+			}
+			tops = append(tops, top)
+		}
+		if harnessOnly {
+			t.Errorf("INCONCLUSIVE: data race inside the harness itself:\n%s", tail(b, 1500))
+			continue
+		}
+		if !onClosePath {
+			vkit.AddExtra("data_races_not_on_a_close_path/"+c.name, 1)
+			continue
+		}
+		sort.Strings(tops)
+		key := fmt.Sprintf("C16/%s/data-race-with-close/%s+%s", c.name, tops[0], tops[1])
+		if seen[key] {
+			vkit.AddExtra("data_races_with_close/"+c.name, 1)
+			continue
+		}
+		seen[key] = true
+		vkit.AddExtra("data_races_with_close/"+c.name, 1)
+		detail := b
+		if len(detail) > 2500 {
+			detail = detail[:2500] + "..."
+		}
+		if vkit.IsKnown(key) {
+			vkit.Violation(t, key, detail, Round{Comp: c.name})
+			continue
+		}
+		violated = true
+		t.Run("data-race", func(t *testing.T) { vkit.Violation(t, key, detail, Round{Comp: c.name}) })
 	}
 	return violated
 }
@@ -442,10 +511,17 @@ func (c *component) supervise(t *testing.T, total int, fixed *Round) {
 		if c.feed(t, s) {
 			return // violation reported (sub-test failed => this test fails)
 		}
-		if runErr == nil && s != nil && s.Done {
-			os.Remove(lp)
-			os.Remove(sp)
-			return
+		if s != nil && s.Done {
+			// (race-built binaries) data races reported by the detector during this child's rounds
+			ob, _ := os.ReadFile(lp)
+			if c.feedRaces(t, string(ob)) {
+				return
+			}
+			if runErr == nil || strings.Contains(string(ob), "WARNING: DATA RACE") {
+				os.Remove(lp)
+				os.Remove(sp)
+				return
+			}
 		}
 		if time.Now().After(budgetEnd) && runErr == nil {
 			return
